@@ -115,7 +115,7 @@ Proof.
   - intros E. injection E as <-. split; [apply refines_refl|exact Hi].
   - destruct (Z.ltb_spec (encx k) (reconx k)); [discriminate|]. intros E. injection E as <-. split.
     + intros o c a b j (Ho & Hc & Ha & Hb & Hj). cbn in *.
-      exists o, a, b, ((encx k - reconx k) / 2 + j). split; [unfold inr5; repeat split; lia|]. auto.
+      exists o, a, b, ((encx k / 2 - reconx k / 2) + j). split; [unfold inr5; repeat split; lia|]. auto.
     + exact Hi.
 Qed.
 
@@ -197,9 +197,9 @@ Qed.
 
 (* crop: the centred window *)
 Lemma remove_os_spec k k' : reconx k < encx k -> remove_readout_os k = inr k' ->
-  forall o c a b j, fd k' o c a b j = fd k o c a b ((encx k - reconx k) / 2 + j) /\
-                    (forall m, ft k' m o a b j = ft k m o a b ((encx k - reconx k) / 2 + j)) /\
-                    fi k' 7 o a b = fi k 7 o a b - (encx k - reconx k) / 2.
+  forall o c a b j, fd k' o c a b j = fd k o c a b ((encx k / 2 - reconx k / 2) + j) /\
+                    (forall m, ft k' m o a b j = ft k m o a b ((encx k / 2 - reconx k / 2) + j)) /\
+                    fi k' 7 o a b = fi k 7 o a b - (encx k / 2 - reconx k / 2).
 Proof.
   intros Hlt. unfold remove_readout_os. destruct (Z.eqb_spec (reconx k) (encx k)); [lia|].
   destruct (Z.ltb_spec (encx k) (reconx k)); [lia|]. intros E. injection E as <-. intros. cbn. auto.
